@@ -310,6 +310,13 @@ inductive AOut (K : Type) where
 /-- `dt_step = max(min(dt_opt, t_end - t), dt_min)` -/
 def dtStep (C : Ctl K) (dtOpt tEnd t : K) : K := pmax (pmin dtOpt (tEnd - t)) C.dtMin
 
+/-- `t = t_end if dt_step == t_end - t else t + dt_step`: an accepted step that was clipped to the
+remaining interval lands exactly on `t_end` (in IEEE arithmetic `t + (t_end - t)` may be the float
+below `t_end`).  `==` is expressed through `<` (the model's only order primitive); the two differ for
+NaN only, which a time never is. -/
+def landT (tEnd t h : K) : K :=
+  if h < tEnd - t then t + h else if tEnd - t < h then t + h else tEnd
+
 /-- base.py `adaptive_stepper` (= numba `_make_adaptive_stepper_general`) for an error
 estimating single step `est us t dt = (new state, error)` -/
 def adaptiveLoop (C : Ctl K) (est : List K → K → K → List K × K) (tEnd : K) : Nat → AState K → AOut K
@@ -320,7 +327,7 @@ def adaptiveLoop (C : Ctl K) (est : List K → K → K → List K × K) (tEnd : 
     let errRel := r.2 / C.tol
     let acc : Bool := errRel ≤ ((1:Nat) : K)
     let us' := if acc then r.1 else s.us
-    let t' := if acc then s.t + h else s.t
+    let t' := if acc then landT tEnd s.t h else s.t
     let steps' := if acc then s.steps + 1 else s.steps
     let tr := ⟨s.t, h, errRel, acc⟩ :: s.trace
     if t' < tEnd then
@@ -359,8 +366,9 @@ structure EState (K : Type) where
   s : AState K
   rate : List K
 
-/-- one pass of the adaptive Euler loop.  Mirrors the code: the rate of an accepted state is
-evaluated at the *old* time (`rate = rhs_pde(step_small, t)` before `t += dt_step`). -/
+/-- one pass of the adaptive Euler loop.  Mirrors the code: the rate of an accepted state, which the
+next step reuses as its first stage, is evaluated at the time the step ends
+(`rate = rhs_pde(step_small, t + dt_step)`, then `t += dt_step`). -/
 def eulerAdaptiveLoop (C : Ctl K) (f : Rate K) (tEnd : K) : Nat → EState K → AOut K
   | 0, e => .fuel e.s
   | n + 1, e =>
@@ -372,9 +380,9 @@ def eulerAdaptiveLoop (C : Ctl K) (f : Rate K) (tEnd : K) : Nat → EState K →
     let small := small0.map (fun x => x + half * h * f x (s.t + half * h))
     let errRel := maxAbs (List.zipWith (· - ·) large small) / C.tol
     let acc : Bool := errRel ≤ ((1:Nat) : K)
-    let rate' := if acc then small.map (fun x => f x s.t) else e.rate
+    let rate' := if acc then small.map (fun x => f x (s.t + h)) else e.rate
     let us' := if acc then small else s.us
-    let t' := if acc then s.t + h else s.t
+    let t' := if acc then landT tEnd s.t h else s.t
     let steps' := if acc then s.steps + 1 else s.steps
     let tr := ⟨s.t, h, errRel, acc⟩ :: s.trace
     if t' < tEnd then
